@@ -162,8 +162,10 @@ class Dyn(pg.Object):
   """Regex-keyed members with symbolic defaults + two const fields."""
 
 
-class DynNotifier(Dyn):
-  """Same, with an overridden change handler."""
+@pg.members(dyn_fields())
+class DynNotifier(pg.Object):
+  """Same, with an overridden change handler (declares the fields itself: a
+  subclass inherits only the first regex-keyed field of its base)."""
 
   def _on_change(self, field_updates):
     M._record(self, 'change', field_updates)   # pylint: disable=protected-access
@@ -190,7 +192,7 @@ def cls_of(name):
 
 
 def is_dyn(node):
-  return isinstance(node, (Dyn, DynAll))
+  return isinstance(node, (Dyn, DynNotifier, DynAll))
 
 
 def missing_groups(desc):
@@ -209,6 +211,20 @@ def missing_groups(desc):
         g = k.split('_')[0] if '_' in k else k
       groups[g] = groups.get(g, 0) + 1
   return max(groups.values()) if groups else 0
+
+
+def max_missing(desc):
+  """`missing_groups` of the description and of everything below it."""
+  b = inner(desc)
+  if b[0] == 'ref':
+    return max_missing(b[1])
+  mem, paired = members(b)
+  if mem is None:
+    return 0
+  n = missing_groups(b) if b[0] in ('O', 'D') else 0
+  for e in mem:
+    n = max(n, max_missing(e[1] if paired else e))
+  return n
 
 
 def obj_kind(desc):
@@ -532,6 +548,22 @@ def operand_problems(forest, operands, counters=None):
   return out
 
 
+SELFREF = 'ref-into-receiving-tree'
+
+
+def refused_selfref(operands):
+  """Is one of the offered objects a pg.Ref to a node of the very tree it was
+  offered to (the library refuses such a reference when it is inserted)? Decided
+  on the operand itself: it still names the container it was offered to, and
+  the value it refers to lives below the same root."""
+  for x in operands:
+    if isinstance(x, pg.Ref) and x.sym_parent is not None:
+      v = x.value
+      if isinstance(v, pg.Symbolic) and v.sym_root is x.sym_parent.sym_root:
+        return True
+  return False
+
+
 # ------------------------------------------------------------- building -----
 
 class CallBuilder:
@@ -552,6 +584,7 @@ class CallBuilder:
     self.uses = {}
     self.operands = []          # symbolic objects handed to the call
     self.operand_findings = []  # (clause, detail), filled by `apply_step`
+    self.selfref = False        # a refused reference into the receiving tree
 
   def __call__(self, desc):
     v = self.build(desc)
@@ -568,9 +601,10 @@ class CallBuilder:
         offered = []
         for m in members:
           note_symbolic(m, offered)
+        mech = (SELFREF if refused_selfref(offered) else f'ctor[{kind}]') + '!rejected'
         for clause, detail in operand_problems(self.forest, offered,
                                                self.counters):
-          self.problems.append((clause, f'ctor[{kind}]!rejected', detail))
+          self.problems.append((clause, mech, detail))
       raise
 
   def build(self, desc):
@@ -755,7 +789,7 @@ class AliasValueSource(H.ValueSource):
     library, which must leave everything as it was). The live node may itself
     be a reference node."""
     self.n_ref += 1
-    nodes = all_members(self.forest) if self.forest else []
+    nodes = H.all_nodes(self.forest) if self.forest else []
     if nodes and rng.random() < 0.5:
       refs = [x for x in nodes if isinstance(x[2], pg.Ref)]
       pool = refs if refs and rng.random() < 0.5 else nodes
@@ -997,6 +1031,183 @@ class _:
   def run(_, a, B): return B(a['v'])
 
 
+@_ctor('new dynamic')
+class _:
+  # An object with regex-keyed fields (or a pg.Dict bound to them): several
+  # keys of one key spec, given or left to the symbolic default of the field by
+  # an explicit pg.MISSING_VALUE; keyword / partial / from_json forms.
+  def gen(g, _):
+    d = dyn_desc(g.rng, sub=lambda: literal(g, 1))
+    form = pick_form(g.rng, d)
+    return {'v': ['ctor', form, d] if form else d}
+  def run(_, a, B): return B(a['v'])
+
+
+# ----------------------------------- operations on existing nodes (local) ---
+# Operations that are not part of the List / Dict / Object table of
+# `gen/ops.py`: calls that hand a node that is ALREADY STORED in a tree to a
+# constructor / wrapper of symbolic values again. The node is fetched as a NODE
+# (`via`: sym_getattr / sym_values / sym_items / traverse; `d.x` would
+# dereference a pg.Ref member). Whatever the call returns, every node that was
+# in the forest before must still be intact afterwards.
+
+LOCAL_OPS = {}
+VIAS = ('sym_getattr', 'sym_values', 'sym_items', 'traverse')
+
+
+def _local(name, kind, effect='new'):
+  def deco(cls):
+    LOCAL_OPS[name] = O.Op(name, kind, cls.gen, cls.run, effect)
+    return cls
+  return deco
+
+
+def fetch(forest, ridx, keys, via='sym_getattr'):
+  """The node at `keys` of root `ridx`, obtained the way a user obtains the
+  symbolic form of a member."""
+  if not keys or via == 'sym_getattr':
+    return D.resolve(forest, ridx, keys)
+  if via == 'traverse':
+    got = []
+    def visit(path, value, parent):
+      if list(path.keys) == list(keys):
+        got.append(value)
+        return pg.TraverseAction.STOP
+      return pg.TraverseAction.ENTER
+    pg.traverse(forest[ridx], visit)
+    if got:
+      return got[0]
+    return D.resolve(forest, ridx, keys)
+  par = D.resolve(forest, ridx, keys[:-1])
+  if via == 'sym_values':
+    ks = list(par.sym_keys())
+    return list(par.sym_values())[ks.index(keys[-1])]
+  return dict(par.sym_items())[keys[-1]]
+
+
+def _wrap_gen(g, n):
+  return {'via': g.rng.choice(VIAS)}
+
+
+@_local('wrap[Ref]', 'Any')
+class _:
+  gen = _wrap_gen
+  def run(n, a, B): return pg.Ref(n)
+
+
+@_local('wrap[maybe_ref]', 'Any')
+class _:
+  gen = _wrap_gen
+  def run(n, a, B): return pg.maybe_ref(n)
+
+
+@_local('wrap[deref]', 'Any')
+class _:
+  gen = _wrap_gen
+  def run(n, a, B): return pg.symbolic.deref(n)
+
+
+@_local('wrap[from_json]', 'Any')
+class _:
+  gen = _wrap_gen
+  def run(n, a, B): return pg.from_json(n)
+
+
+@_local('wrap[Insertion]', 'Any')
+class _:
+  # pg.Insertion(node) handed to a list of ANOTHER position is an ordinary
+  # operand; here only the wrapper is made and dropped.
+  gen = _wrap_gen
+  def run(n, a, B):
+    pg.Insertion(n)
+    return None
+
+
+@_local('wrap[Dict]', 'Dict')
+class _:
+  def gen(g, n): return {'via': g.rng.choice(VIAS),
+                         'form': g.rng.choice(['dict', 'kwargs', 'items'])}
+  def run(n, a, B):
+    if a['form'] == 'kwargs' and all(isinstance(k, str) for k in n.sym_keys()):
+      return pg.Dict(**dict(n.sym_items()))
+    if a['form'] == 'items':
+      return pg.Dict(list(n.sym_items()))
+    return pg.Dict(n)
+
+
+@_local('wrap[List]', 'List')
+class _:
+  def gen(g, n): return {'via': g.rng.choice(VIAS),
+                         'form': g.rng.choice(['list', 'values'])}
+  def run(n, a, B):
+    return pg.List(list(n.sym_values())) if a['form'] == 'values' else pg.List(n)
+
+
+@_local('wrap[Object]', 'Object')
+class _:
+  # type(o)(<the members of o>): keyword / partial / sym_init_args.
+  def gen(g, n):
+    if isinstance(n, pg.Ref):
+      return None
+    return {'via': g.rng.choice(VIAS),
+            'form': g.rng.choice(['items', 'init_args', 'partial'])}
+  def run(n, a, B):
+    if a['form'] == 'init_args':
+      return type(n)(**dict(n.sym_init_args))
+    if a['form'] == 'partial':
+      return type(n).partial(**dict(n.sym_items()))
+    return type(n)(**dict(n.sym_items()))
+
+
+@_local('deref[recursive]', 'Any', effect='mutate')
+class _:
+  def gen(g, n): return {'via': g.rng.choice(VIAS)}
+  def run(n, a, B): return pg.symbolic.deref(n, recursive=True)
+
+
+@_local('rebind[dynamic]', 'Dyn', effect='mutate')
+class _:
+  # A batch of keys of the regex-keyed fields of one object (present or new),
+  # each rebound to a value or to pg.MISSING_VALUE.
+  def gen(g, n):
+    have = [k for k in n.sym_keys() if isinstance(k, str)]
+    ups, names = [], []
+    for _i in range(g.rng.randint(2, 4)):
+      if isinstance(n, DynAll):
+        pre, name = 'a', g.rng.choice(have + ['p', 'q', 'r1', 'zz'])
+      else:
+        pre = g.rng.choice(DYN_PREFIXES)
+        mine = [k for k in have if k.startswith(pre + '_')]
+        name = (g.rng.choice(mine) if mine and g.rng.random() < 0.6
+                else dyn_names(g.rng, pre, 1)[0])
+      if name in names:
+        continue
+      names.append(name)
+      v = (['missing'] if g.rng.random() < 0.4
+           else dyn_value(g.rng, pre, lambda: g.value(None, None)))
+      ups.append([[name], v])
+    opts = {}
+    if g.rng.random() < 0.1:
+      opts['skip_notification'] = True
+    return {'updates': ups, 'opts': opts,
+            'form': g.rng.choice(['dict', 'kwargs']),
+            'style': g.rng.choice(['raw', 'keypath', 'str']),
+            'api': g.rng.choice(['rebind', 'sym_rebind'])}
+  def run(n, a, B): return O.OPS['rebind'].run(n, a, B)
+
+
+def local_ops_for(node, effects=('mutate', 'new', 'flag')):
+  k = O.node_kind(node)
+  out = [o for o in LOCAL_OPS.values()
+         if o.effect in effects and (o.kind in (k, 'Any')
+                                     or (o.kind == 'Dyn' and is_dyn(node)))]
+  return out
+
+
+def wrap_ops_for(node):
+  return [o for o in local_ops_for(node) if o.name.startswith(('wrap[', 'deref['))]
+
+
 def prebuild_members(rng, desc, bad=False, p=0.6):
   """Rewrites (in place) plain dict / list members of a typed holder
   description into pre-built symbolic ones; with `bad`, one typed member is
@@ -1053,14 +1264,30 @@ def ctor_kind(step):
 
 def gen_step(rng, forest, p_ctor=0.07, effects=('mutate', 'new', 'flag'),
              p_scope=None, max_nodes=60, value_source_kwargs=None,
-             p_hostile=0.5):
-  """Like `history.gen_step`, with `AliasValueSource` operands and the
-  constructor operations."""
+             p_hostile=0.5, p_wrap=0.05, p_dyn=0.5):
+  """Like `history.gen_step`, with `AliasValueSource` operands, the
+  constructor operations and the operations on existing nodes."""
   nodes = H.all_nodes(forest)
   if not nodes:
     return None
   p_scope = p_scope if p_scope is not None else {
       'notify_off': 0.12, 'writable': 0.3, 'no_typecheck': 0.04}
+  if rng.random() < p_wrap:
+    refs = [x for x in nodes if isinstance(x[2], pg.Ref)]
+    for _ in range(5):
+      ridx, keys, node = rng.choice(refs if refs and rng.random() < 0.5 else nodes)
+      cands = wrap_ops_for(node)
+      if len(nodes) > max_nodes:
+        cands = [o for o in cands if o.kind == 'Any']
+      o = rng.choice(cands)
+      args = o.gen(O.GenEnv(rng, None, forest), node)
+      if args is None:
+        continue
+      sc = [name for name, p in p_scope.items()
+            if name != 'writable' and rng.random() < p / 2]
+      return {'op': o.name, 'at': [ridx, keys], 'args': args, 'scopes': sc,
+              'shared': 0, 'hostile': 0, 'prebuilt': 0, 'wrap': True,
+              'ref_target': isinstance(node, pg.Ref)}
   if rng.random() < p_ctor and len(nodes) <= max_nodes:
     o = CTOR_OPS[rng.choice(sorted(CTOR_OPS))]
     vs = AliasValueSource(forest, (-1, []), p_alias=0.3, p_same=0.4,
@@ -1071,12 +1298,18 @@ def gen_step(rng, forest, p_ctor=0.07, effects=('mutate', 'new', 'flag'),
     return {'op': o.name, 'at': [0, []], 'args': args, 'scopes': sc,
             'shared': vs.n_shared, 'hostile': vs.n_hostile + hostilize_desc(
                 rng, args['v'], 0.25 if rng.random() < p_hostile else 0),
-            'prebuilt': vs.n_prebuilt}
+            'prebuilt': vs.n_prebuilt, 'refs': vs.n_ref,
+            'missing': max_missing(args['v'])}
   for _ in range(20):
     ridx, keys, node = rng.choice(nodes)
     cands = O.ops_for(node, effects)
+    if isinstance(node, pg.Ref):
+      # a reference node is a leaf: only the operations of every node apply
+      cands = [o for o in cands if o.kind == 'Any']
     if len(nodes) > max_nodes:
       cands = [o for o in cands if o.effect != 'new'] or cands
+    if is_dyn(node) and rng.random() < p_dyn:
+      cands = [LOCAL_OPS['rebind[dynamic]']]
     if not cands:
       continue
     o = rng.choice(cands)
@@ -1090,7 +1323,7 @@ def gen_step(rng, forest, p_ctor=0.07, effects=('mutate', 'new', 'flag'),
     sc = [name for name, p in p_scope.items() if rng.random() < p]
     return {'op': o.name, 'at': [ridx, keys], 'args': args, 'scopes': sc,
             'shared': vs.n_shared, 'hostile': hostile,
-            'prebuilt': vs.n_prebuilt}
+            'prebuilt': vs.n_prebuilt, 'refs': vs.n_ref}
   return None
 
 
@@ -1102,8 +1335,10 @@ def execute(forest, step, counters=None):
     if ctor is not None:
       with O.scopes(step.get('scopes', ())):
         return 'ok', ctor.run(None, step['args'], B), B
-    o = O.OPS[step['op']]
-    node = D.resolve(forest, step['at'][0], step['at'][1])
+    o = LOCAL_OPS.get(step['op']) or O.OPS[step['op']]
+    node = fetch(forest, step['at'][0], step['at'][1],
+                 step['args'].get('via', 'sym_getattr')
+                 if step['op'] in LOCAL_OPS else 'sym_getattr')
     with O.scopes(step.get('scopes', ())):
       return 'ok', o.run(node, step['args'], B), B
   except Exception as e:  # pylint: disable=broad-except
@@ -1111,7 +1346,9 @@ def execute(forest, step, counters=None):
 
 
 def effect(step):
-  return 'new' if step['op'] in CTOR_OPS else O.OPS[step['op']].effect
+  if step['op'] in CTOR_OPS:
+    return 'new'
+  return (LOCAL_OPS.get(step['op']) or O.OPS[step['op']]).effect
 
 
 def apply_step(forest, seen, step, counters=None):
@@ -1122,10 +1359,18 @@ def apply_step(forest, seen, step, counters=None):
   status, result, B = execute(forest, step, counters)
   if (status == 'ok' and effect(step) == 'new' and isinstance(result, pg.Symbolic)
       and not any(result is r for r in forest)):
-    forest.append(result)
+    if step['op'] not in LOCAL_OPS:
+      forest.append(result)
+    elif (result.sym_parent is None and
+          not any(n is result for _, _, n in H.all_nodes(forest))):
+      # A wrapper call may return the very node it was given (or a value a
+      # reference points to): only what is new and parent-less is a new root.
+      forest.append(result)
   H.drop_moved_roots(forest)
   if isinstance(result, pg.Symbolic) and seen is not None:
     seen.setdefault(id(result), result)
+  if status == 'raise' and B.operands:
+    B.selfref = refused_selfref(B.operands)
   problems = TM.tree_ok(forest, seen, counters)
   if not problems and not B.problems and B.operands:
     if counters is not None and status == 'raise':
@@ -1134,7 +1379,9 @@ def apply_step(forest, seen, step, counters=None):
   return status, result, problems, B
 
 
-def mechanism(step, status, notify_matters=False):
+def mechanism(step, status, notify_matters=False, built=None):
+  if status == 'raise' and built is not None and built.selfref:
+    return SELFREF + '!rejected'
   if step['op'] in CTOR_OPS:
     return f'ctor[{ctor_kind(step)}]' + ('!rejected' if status == 'raise' else '')
   return H.mechanism(step, status, notify_matters)
@@ -1189,9 +1436,46 @@ def holder_desc(rng, depth=2, sub=None):
   return ['L', holder_rows(rng, sub), {'value_spec': M.holder_rows_spec()}]
 
 
-def make_forest(rng, p_holder=0.4, p_hostile=0.4, **kw):
-  """`history.make_forest` descriptions, into which a typed holder is grafted
-  (as a member of an untyped container, or as a further root)."""
+def graft(rng, descs, h, p_member=0.75):
+  """Puts the description `h` into the forest descriptions: as a member of an
+  untyped container, or as a further root."""
+  owners = []
+  for d in descs:
+    if open_container(d):
+      owners.append(d)
+    for s, _ in slots(d)[1]:
+      if s[0] != 'node' and open_container(s):
+        owners.append(s)
+  if owners and rng.random() < p_member:
+    o = rng.choice(owners)
+    sl = [(oo, i) for oo, i, _ in slots(o)[0] if oo is o]
+    if sl and (o[0] == 'O' or rng.random() < 0.4):
+      set_slot(o, rng.choice(sl)[1], h)
+      return
+    if add_slot(rng, o, h):
+      return
+  descs.append(h)
+
+
+def fresh_ref(rng):
+  while True:
+    d = D.gen(rng, 2, typed=False, symbolic=None if rng.random() < 0.4 else True)
+    if d[0] in CONTAINER_KINDS:
+      return ['ref', d]
+
+
+def make_forest(rng, **kw):
+  descs, forest, _ = make_forest2(rng, **kw)
+  return descs, forest
+
+
+def make_forest2(rng, p_holder=0.4, p_hostile=0.4, p_dyn=0.3, p_ref=0.35,
+                 counters=None):
+  """`history.make_forest` descriptions, into which a typed holder, an object
+  with dynamic fields and reference nodes are grafted (as members of untyped
+  containers, or as further roots). Returns (descs, forest, problems);
+  problems = [(clause, mechanism, detail)] found right after a constructor
+  returned."""
   n_roots = rng.choice([1, 1, 2, 3])
   descs = []
   for _ in range(n_roots):
@@ -1202,26 +1486,17 @@ def make_forest(rng, p_holder=0.4, p_hostile=0.4, **kw):
         break
     descs.append(d)
   if rng.random() < p_holder:
-    h = holder_desc(rng)
-    owners = []
-    for d in descs:
-      if open_container(d):
-        owners.append(d)
-      for s, _ in slots(d)[1]:
-        if s[0] != 'node' and open_container(s):
-          owners.append(s)
-    placed = False
-    if owners and rng.random() < 0.75:
-      o = rng.choice(owners)
-      sl = [(oo, i) for oo, i, _ in slots(o)[0] if oo is o]
-      if sl and (o[0] == 'O' or rng.random() < 0.4):
-        set_slot(o, rng.choice(sl)[1], h)
-        placed = True
-      else:
-        placed = add_slot(rng, o, h)
-    if not placed:
-      descs.append(h)
+    graft(rng, descs, holder_desc(rng))
+  if rng.random() < p_dyn:
+    h = dyn_desc(rng, sub=lambda: D.gen(rng, rng.randint(0, 2), typed=False,
+                                        symbolic=None if rng.random() < 0.5 else True))
+    form = pick_form(rng, h)
+    graft(rng, descs, ['ctor', form, h] if form else h)
+  if rng.random() < p_ref:
+    for _ in range(rng.randint(1, 3)):
+      graft(rng, descs, fresh_ref(rng), p_member=0.9)
   if rng.random() < p_hostile:
     for d in descs:
       hostilize_desc(rng, d, rng.choice([0.15, 0.3, 0.6]))
-  return descs, [D.build(d) for d in descs]
+  B = CallBuilder([], counters)
+  return descs, [B.build(d) for d in descs], B.problems
